@@ -134,6 +134,9 @@ def run(R):
     R.rule("C02-R9", "the star plan accounts for every pattern of the join group: patterns outside the chosen stars are each joined back "
                      "(skipped only when the pattern is marked as used by a star), every further star contributes all its patterns, and "
                      "the patterns a star keeps are exactly those not used by an earlier star")
+    R.rule("C02-R10", "the plan memo stores under the key of a logical node only a plan that was computed from that node alone: the key is "
+                      "create_memo_key of a parameter X, and the stored plan depends on no other plan-content input of the function (a "
+                      "FILTER or projection passed alongside X must be part of the keyed node, or the entry is reused for the bare node)")
     R.rule("C02-R7", "parallel execution sees its whole input: what the rayon workers of the executor iterate over reaches them from the "
                      "operator's input rows only through element-preserving steps (par_chunks / par_iter / into_par_iter ...); no "
                      "hand-computed batches, no truncating adaptor - otherwise the answer depends on the thread count")
@@ -145,6 +148,7 @@ def run(R):
     r7(R)
     r8(R)
     r9(R)
+    r10(R)
 
 
 def r1(R):
@@ -661,3 +665,52 @@ def r9(R):
             if any(r["k"] == "root" and r["name"] == "available" for r in roots) and not [x for x in names if x in ("take", "skip", "filter", "step_by", "take_while", "skip_while")]:
                 oksp = True
         R.ob("C02-R9", "star-is-available", "the star consists of exactly the not-yet-used patterns of its variable", oksp, where=iq.where())
+
+
+def r10(R):
+    from lib import pipeline as P
+    prog = R.prog
+    n = 0
+    for b in sorted(prog.bodies.values(), key=lambda x: x.key):
+        if b.crate != "kolibrie" or not b.file.endswith("streamertail_optimizer/optimizer.rs") or "::tests::" in b.key:
+            continue
+        for c in b.calls():
+            if c.name() != "insert" or len(c.args) != 3:
+                continue
+            o = b.origin(c.args[0], stop_named=False)
+            if o[0] != "place" or not any(e.get("n") == "memo" for e in o[1]["p"]):
+                continue
+            n += 1
+            R.saw(b)
+            # key: create_memo_key(self, X)
+            ko = b.origin(c.args[1], stop_named=False)
+            kc = ko[1] if ko[0] == "call" else None
+            if kc is None and ko[0] == "place":
+                ds = [d for d in b.defs().get(ko[1]["l"], []) if d[0] == "call"]
+                kc = ds[0][2] if len(ds) == 1 else None
+            keyed = None
+            if kc is not None and kc.name() == "create_memo_key" and len(kc.args) >= 2:
+                ro = b.origin(kc.args[1], stop_named=True)
+                if ro[0] == "place" and 1 <= ro[1]["l"] <= b.nargs and not [e for e in ro[1]["p"] if e["k"] != "deref"]:
+                    keyed = ro[1]["l"]
+            R.ob("C02-R10", "key:%s:%d" % (b.name, n), "the memo key in %s is create_memo_key of one of its parameters (%s)" % (b.name, b.local_name(keyed) if keyed else "?"),
+                 keyed is not None, where=b.where(c.ln))
+            if keyed is None:
+                continue
+            vl = F.op_place(c.args[2])
+            der = P.derives(prog, b, vl["l"], at_bb=c.bb) if vl is not None else set()
+            params = {t[1] for t in der if t[0] == "param"}
+            fields = {t[1].split(".")[0] for t in der if t[0] == "field"}
+            others = sorted(x for x in (params | fields) if x not in ("self", b.local_name(keyed)) and x is not None)
+            # parameters that carry plan content (operators, conditions, variable lists, patterns)
+            content = []
+            for i in range(1, b.nargs + 1):
+                if b.local_name(i) in others:
+                    ty = b.local_ty(i)
+                    if any(k in ty for k in ("Operator", "Condition", "Vec<", "QuadPattern", "Term", "SubquerySpec", "String", "Option<")):
+                        content.append(b.local_name(i))
+            R.ob("C02-R10", "value:%s:%d" % (b.name, n), "the plan stored under the key of `%s` depends on no other plan content (also depends on: %s)"
+                 % (b.local_name(keyed), content), not content, where=b.where(c.ln),
+                 detail=None if not content else "the entry is found again for a bare occurrence of `%s` in the same query (another UNION branch, a subquery) and "
+                 "brings %s along: rows are filtered / projected that must not be" % (b.local_name(keyed), content))
+    R.floor("C02-R10", "plan-memo insertions", n, 3)
